@@ -33,7 +33,10 @@ TYPES = {
             {1: "    impl Ada {\n        #[diplomat::attr(not(supports = callbacks), disable)]\n"
                 "        pub fn each(self, f: impl Fn(u8)) { f(self.a) }\n"
                 "        pub fn sum(self, xs: &[f64]) -> f64 { xs.iter().sum::<f64>() + self.b }\n"
-                "        pub fn check(self) -> Result<u8, ()> { Ok(self.a) }\n    }\n"}),
+                "        pub fn check(self) -> Result<u8, ()> { Ok(self.a) }\n"
+                # a render terminus on a type that sorts BEFORE every base type in the tool's type order (structs first): state
+                # that demo_gen keeps between types must not spill into the files of the types after it
+                "        pub fn render(self, w: &mut DiplomatWrite) {}\n    }\n"}),
     "Zen": ("    pub enum Zen {\n        P,\n        Q = 9,\n    }\n",
             {1: "    impl Zen {\n        pub fn parse(s: &str) -> Option<Zen> { if s.is_empty() { None } else { Some(Zen::P) } }\n"
                 "        pub fn label(self, w: &mut DiplomatWrite) {}\n    }\n"}),
